@@ -72,6 +72,29 @@ func buildPrelude() string {
 	sb.WriteString(pow2(64).String())
 	sb.WriteString(strings.Repeat(")", 64))
 	sb.WriteString(")\n")
+	// exact model of encoding/binary.Uvarint on the byte sequence d[o..o+l): value and byte count
+	var gen func(i int, acc string, want string) string
+	gen = func(i int, acc string, want string) string {
+		res := func(v, n string) string {
+			if want == "val" {
+				return v
+			}
+			return n
+		}
+		if i == 10 {
+			return fmt.Sprintf("(ite (>= %d l) %s %s)", i, res("0", "0"), res("0", "(- 11)"))
+		}
+		b := fmt.Sprintf("(mod (select d (+ o %d)) 256)", i)
+		p7 := new(bigInt).Exp(bigTwo(), bigOf(int64(7*i)), nil).String()
+		small := res(fmt.Sprintf("(+ %s (* %s %s))", acc, b, p7), fmt.Sprintf("%d", i+1))
+		if i == 9 {
+			small = fmt.Sprintf("(ite (> %s 1) %s %s)", b, res("0", "(- 10)"), small)
+		}
+		next := gen(i+1, fmt.Sprintf("(+ %s (* (- %s 128) %s))", acc, b, p7), want)
+		return fmt.Sprintf("(ite (>= %d l) %s (ite (< %s 128) %s %s))", i, res("0", "0"), b, small, next)
+	}
+	p += "(define-fun uvarint_val ((d (Array Int Int)) (o Int) (l Int)) Int " + gen(0, "0", "val") + ")\n"
+	p += "(define-fun uvarint_n ((d (Array Int Int)) (o Int) (l Int)) Int " + gen(0, "0", "n") + ")\n"
 	// replace the short pow2 definition
 	lines := strings.Split(p, "\n")
 	var out []string
@@ -142,7 +165,7 @@ func tokensOf(s string, into map[string]bool) {
 }
 
 func (e *Engine) script(formula string) string {
-	specs := e.specPrelude()
+	specs := e.specPrelude(formula)
 	toks := map[string]bool{}
 	tokensOf(formula, toks)
 	tokensOf(specs, toks)
